@@ -8,6 +8,7 @@ import (
 	"verif/harness"
 	m "verif/internal/model"
 	"verif/internal/rt"
+	"verif/internal/streamcase"
 	"verif/internal/value"
 )
 
@@ -38,6 +39,7 @@ func probeDesign() *m.Design {
 	}
 	s.Methods = append(s.Methods, &m.Method{Name: "unions", Payload: rt.Obj(rt.Fld("items", un(m.Boolean, m.String), false)), Result: rt.Obj(rt.Fld("items", un(m.Int, m.Float64), false)),
 		HTTP: &m.HTTPEndpoint{Routes: []m.Route{{Verb: "POST", Path: "/unions"}}}})
+	s.Methods = append(s.Methods, &m.Method{Name: "ticks", Streaming: "result", Result: m.Prim(m.Int64), HTTP: &m.HTTPEndpoint{Routes: []m.Route{{Verb: "GET", Path: "/ticks"}}}})
 	d.Services = []*m.Service{s}
 	return d
 }
@@ -69,6 +71,15 @@ func TestProbes(t *testing.T) {
 			return strings.Contains(err.Error(), "cannot use"), "result {items: alt_a(7)} (Int alternative): " + err.Error()
 		}
 		return !strings.Contains(o.Result.Canon(), "7"), "result {items: alt_a(7)}: client got " + o.Result.Canon() + errText(o)
+	})
+	rt.Probe(streamcase.EmptyStreamFinding, func() (bool, string) {
+		// the service closes the result stream without sending anything
+		o, err := h.Do(&harness.Case{Op: "call", Svc: "probe", Method: "ticks", Stream: &harness.StreamSpec{Script: ""}})
+		if err != nil {
+			t.Fatalf("INCONCLUSIVE: %v", err)
+		}
+		clean := o.ClientErr == nil && o.ClientStream != nil && o.ClientStream.End == "eof"
+		return !clean, "result stream closed by the service without a message: client got" + errText(o)
 	})
 	rt.Probe("C03-response-header-array-not-split", func() (bool, string) {
 		o := call("hdrarray", value.Object(value.Field{N: "l", V: value.Array(value.Int(1), value.Int(2))}))
